@@ -58,10 +58,27 @@ type stepResult struct {
 	Consumed int
 	// LA holds the look-ahead bytes this result depends on (offset relative to the fed byte, >= 1).
 	LA map[int]int
+	// EndedEarly: Next reported the end of the stream although input remained (Kind is "crash" for the
+	// rules that expect the whole input to be scanned; the length rules read it as "the scan stops here").
+	EndedEarly bool
 }
 
 func newPEConfig(c *load.Ctx) *pe.Config {
 	c.BuildSSA()
+	cfg := newPEConfig0(c)
+	// errors.New of the standard library yields a non-nil error (an opaque *errors.errorString)
+	if ep := c.Prog.ImportedPackage("errors"); ep != nil {
+		if tm, ok := ep.Members["errorString"].(*ssa.Type); ok {
+			dyn := types.NewPointer(tm.Type())
+			cfg.Intrinsics["errors.New"] = func(in *pe.Interp, args []pe.Value) (pe.Value, bool) {
+				return &pe.Iface{T: dyn, V: pe.NewSym("errors.New("+pe.Show(args[0])+")", dyn)}, true
+			}
+		}
+	}
+	return cfg
+}
+
+func newPEConfig0(c *load.Ctx) *pe.Config {
 	return &pe.Config{
 		Prog:       c.Prog,
 		Intrinsics: map[string]pe.Intrinsic{},
@@ -638,7 +655,7 @@ func (m *scanModel) finishByte(mr microResult) *stepResult {
 		res.Events = append(res.Events, mr.ev)
 		cur = mr.state
 	case "end":
-		res.Kind, res.Detail = "crash", "Next reported end of input although a byte was available"
+		res.Kind, res.Detail, res.EndedEarly = "crash", "Next reported end of input although a byte was available", true
 		return res
 	default:
 		res.Kind, res.Detail, res.Code, res.ErrPos, res.Where = mr.kind, mr.detail, mr.code, mr.errPos, mr.where
@@ -668,7 +685,7 @@ func (m *scanModel) finishByte(mr microResult) *stepResult {
 		default:
 			res.Kind, res.Detail, res.Code, res.ErrPos = mr.kind, mr.detail, mr.code, mr.errPos
 			if mr.kind == "end" {
-				res.Kind, res.Detail = "crash", "Next reported end of input although bytes remain"
+				res.Kind, res.Detail, res.EndedEarly = "crash", "Next reported end of input although bytes remain", true
 			}
 			return res
 		}
